@@ -64,8 +64,11 @@ Section AMap.
     | (k', v') :: r => if keqb k k' then adel k r else (k', v') :: adel k r
     end.
   Fixpoint asum (l : amap) : Z := match l with [] => 0 | (_, v) :: r => v + asum r end.
+  (** Every key is stored once (what a key/value store guarantees). *)
+  Definition wf (l : amap) : Prop := NoDup (map fst l).
 End AMap.
 Arguments amap K : clear implicits.
+Arguments wf {K} l.
 
 (** * Storage *)
 Record state := mkState {
@@ -387,3 +390,40 @@ Section Token.
 
   Definition run (s : state) (l : list call) : state := fold_left (fun s k => fst (step s k)) l s.
 End Token.
+
+(** * Specification side (used by Props/C06.v) *)
+
+(** State invariant: every balance key is stored once; every balance and allowance reads >= 0. *)
+Record inv (s : state) : Prop := {
+  inv_wf : forall t, wf (bmap s t);
+  inv_bal : forall t a, 0 <= balf s t a;
+  inv_allow : forall t o sp, 0 <= allowf s t o sp
+}.
+
+(** [a] witnessed the call, in the sense of SmartContract.CheckWitness (it signed the
+    transaction or it is the calling contract). *)
+Definition witnessed_by (k : call) (a : addr) : Prop := check_witness (c_ctx k) a = true.
+
+(** While the ONT contract executes, it is the calling contract of the ONG calls grantOng makes
+    (CheckWitness(OntContractAddress) holds there): its own ONG balance - the pool unbound ONG is
+    paid from - and the ONG allowances it grants are under its own witness. *)
+Definition ont_pool (k : call) (t : token) (a : addr) : Prop :=
+  c_tok k = ONT /\ t = ONG /\ a = tk_ont_addr.
+
+(** A balance decreased in the step only if its owner witnessed the call, or it is the ONT
+    contract's ONG pool during an ONT call, or the call is a transferFrom of the owner's tokens by
+    an authorised spender and the owner's allowance to that spender decreased by the same amount
+    without going below 0. *)
+Definition debit_authorized (k : call) (s s' : state) : Prop :=
+  forall t a, balf s' t a < balf s t a ->
+    witnessed_by k a \/ ont_pool k t a \/
+    exists v2 sender to value,
+      c_op k = TransferFrom v2 sender a to value /\ t = c_tok k /\
+      (witnessed_by k sender \/ (witnessed_by k tk_ont_addr /\ sender = to /\ a = tk_ont_addr)) /\
+      0 <= allowf s' t a sender /\
+      allowf s t a sender - allowf s' t a sender = balf s t a - balf s' t a.
+
+(** An allowance increased in the step only if its owner witnessed the call (or it is an ONG
+    allowance granted by the ONT contract during an ONT call). *)
+Definition allowance_authorized (k : call) (s s' : state) : Prop :=
+  forall t o sp, allowf s t o sp < allowf s' t o sp -> witnessed_by k o \/ ont_pool k t o.
